@@ -715,6 +715,11 @@ func driveOne(res *hx.Result, tw *hx.TraceWriter, tr int64, tlen int, stub strin
 			} else if err != nil {
 				return fmt.Errorf("%v: arrange: %w", d, err)
 			}
+			// a world grows old: before the active contract comes near its proof window the trace ends
+			if w.active.Revision.ProofHeight < w.net.cm.Tip().Height+60 {
+				res.Sample(map[string]any{"trace": tr, "attempts_prefix": sample, "ended_after": i, "why": "active contract near its proof window"})
+				return nil
+			}
 			// a wallet drained by leaked reservations cannot start another attempt: the trace ends
 			if hv, err := w.host.view(false); err != nil {
 				return err
